@@ -6,7 +6,9 @@ pub mod oracle;
 pub mod out;
 pub mod rng;
 pub mod search;
+pub mod session;
 pub mod tables;
+pub mod uci;
 
 use std::sync::Mutex;
 
@@ -54,6 +56,7 @@ pub struct Args {
     pub shard: usize,
     pub of: usize,
     pub results: Option<String>,
+    pub engine: String,
 }
 
 fn parse_args() -> Args {
@@ -71,6 +74,7 @@ fn parse_args() -> Args {
         shard: 0,
         of: 1,
         results: None,
+        engine: String::new(),
     };
     let mut i = 2;
     while i < argv.len() {
@@ -106,6 +110,10 @@ fn parse_args() -> Args {
             }
             "--of" => {
                 a.of = v.parse().unwrap_or(1);
+                i += 1;
+            }
+            "--engine" => {
+                a.engine = v;
                 i += 1;
             }
             "--results" => {
@@ -162,6 +170,26 @@ pub fn main() {
             }
         }
         "tables" => tables::run(&a.tier, a.seed, a.threads),
+        "uci" => {
+            let ctx = uci::Ctx {
+                engine: a.engine.clone(),
+                tier: a.tier.clone(),
+                seed: a.seed,
+                threads: a.threads,
+                only_job: a.only_job,
+                time_cap: a.time_cap,
+            };
+            let r = match a.prop.as_str() {
+                "C08" => uci::run_c08(&ctx),
+                "C09" => uci::run_c09(&ctx, "C09"),
+                "C14" => uci::run_c09(&ctx, "C14"),
+                "C15" => uci::run_c15(&ctx),
+                other => Err(format!("unknown uci property '{other}'")),
+            };
+            if let Err(e) = r {
+                out::harness_error(e);
+            }
+        }
         "search" => {
             let r = match a.prop.as_str() {
                 "C11" => search::run_c11(&a.tier, a.seed, a.shard, a.of, a.only_job, a.time_cap),
